@@ -155,17 +155,33 @@ func buildInProcess(text string) (w *parser.Walker, outcome, diag, stdout string
 
 // Observe generates in-process and projects.
 func Observe(c *Case) *Obs {
-	o := &Obs{ID: c.ID, G: c.TLA()}
-	o.Text = c.Render(RenderOpts{Prologue: "package main"})
+	text := c.Render(RenderOpts{Prologue: "package main"})
 	resetFlags()
-	w, outcome, diag, stdout := buildInProcess(o.Text)
+	w, outcome, diag, stdout := buildInProcess(text)
+	var o *Obs
+	if outcome == "ok" {
+		o = projectRun(c, w, stdout)
+	} else {
+		o = emptyObs()
+	}
+	o.ID, o.G, o.Text = c.ID, c.TLA(), text
 	o.Outcome, o.Diag, o.Stdout = outcome, diag, stdout
+	return o
+}
+
+func emptyObs() *Obs {
+	o := &Obs{}
 	o.States, o.Gotos, o.LA, o.Warn = [][][]int{}, [][]obsGoto{}, []obsLA{}, []obsWarn{}
 	o.Syms, o.IsNT, o.Table = []string{}, []bool{}, [][]int{}
 	o.Packed = obsPacked{Act: []int{}, Off: []int{}, Chk: []int{}, ADef: []int{}, GDef: []int{}}
-	if outcome != "ok" {
-		return o
-	}
+	return o
+}
+
+// projectRun projects the data structures of one finished generation.
+func projectRun(c *Case, w *parser.Walker, stdout string) *Obs {
+	o := emptyObs()
+	o.Outcome = "ok"
+	o.Stdout = stdout
 	root := w.VistorNode.(*parser.RootVistor)
 	l := root.LALR1
 	g := l.G
